@@ -307,6 +307,32 @@ def pure_expr(v: ast.AST) -> bool:
     return False
 
 
+def module_regexes(mod, env=None):
+    """{name: compiled pattern} for module-level ``NAME = re.compile(<constant pattern>[, <re.FLAG | ...>])``"""
+    import re as _re
+    from sa.astx import NotConst, const_eval
+    out = {}
+    for st in mod.tree.body:
+        if isinstance(st, ast.Assign) and len(st.targets) == 1 and isinstance(st.targets[0], ast.Name) and isinstance(st.value, ast.Call) \
+                and dotted(st.value.func) in ("re.compile",) and 1 <= len(st.value.args) <= 2 and not st.value.keywords:
+            try:
+                pat = const_eval(st.value.args[0], dict(env or {}))
+                flags = 0
+                if len(st.value.args) == 2:
+                    fenv = dict(env or {})
+                    names = {dotted(x) for x in ast.walk(st.value.args[1]) if isinstance(x, ast.Attribute)}
+                    text = src(st.value.args[1])
+                    for nm in names:
+                        if nm and nm.startswith("re.") and nm[3:].isupper() and hasattr(_re, nm[3:]):
+                            text = text.replace(nm, str(int(getattr(_re, nm[3:]))))
+                    flags = const_eval(ast.parse(text, mode="eval").body, fenv)
+                if isinstance(pat, (bytes, str)) and isinstance(flags, int):
+                    out[st.targets[0].id] = _re.compile(pat, flags)
+            except (NotConst, _re.error, SyntaxError):
+                pass
+    return out
+
+
 # ---- a small whitelisted interpreter for extracted functions (finite evaluation of models) -------------
 
 class ModelReturn(Exception):
@@ -494,6 +520,14 @@ class MiniInterp:
                     try:
                         return getattr(recv, f.attr)(*args)
                     except (ValueError, TypeError, IndexError) as e:
+                        raise ModelError(f"{type(e).__name__}: {e}")
+                import re as _re
+                if isinstance(recv, _re.Pattern) and f.attr in ("search", "match", "fullmatch", "findall", "sub", "subn", "split") \
+                        or isinstance(recv, _re.Match) and f.attr in ("start", "end", "span", "group", "groups"):
+                    # a module-level regular expression compiled from a constant pattern: matching is delegated to CPython's re
+                    try:
+                        return getattr(recv, f.attr)(*args)
+                    except (TypeError, ValueError, IndexError, _re.error) as e:
                         raise ModelError(f"{type(e).__name__}: {e}")
                 if isinstance(recv, list) and f.attr in ("append", "extend", "pop", "clear", "insert", "remove", "reverse", "sort", "copy"):
                     try:
